@@ -56,6 +56,86 @@ def equivalences(chk: Check, n):
                     break
 
 
+def float_linearised(chk: Check, n):
+    """The unmodified code on floats, raw data through Experiment.analyze, against the two-sample test of the
+    linearised observations written with numpy/scipy — including variants whose NUMERATOR mean is exactly zero
+    (inside C05's quantifier: only the denominator means must be non-zero).  With a zero mean the relative fields
+    are degenerate (C18) and only the absolute fields are compared."""
+    import math
+
+    import numpy as np
+    import pyarrow as pa
+    import scipy.stats as st
+    import tea_tasting as tt
+    rng = np.random.default_rng(chk.seed + 55)
+    for k in range(n):
+        alt, ev, ut = CELLS[k % len(CELLS)]
+        cl = float(rng.choice([0.8, 0.9, 0.95, rng.uniform(0.1, 0.99)]))
+        nc, nt = int(rng.integers(3, 40)), int(rng.integers(3, 40))
+        zero = ("none", "treatment", "control", "treatment")[k % 4]
+        xs, ys = [], []
+        for g, m in (("control", nc), ("treatment", nt)):
+            y = rng.integers(1, 6, m).astype(float)
+            x = rng.integers(-6, 9, m).astype(float) + (y if k % 2 else 0)
+            if zero == g:
+                x[-1] -= x.sum()                     # integer data: the sum is exactly 0
+                if len(set(x)) < 2:
+                    x[0] += 1
+                    x[1] -= 1
+            elif x.sum() == 0:
+                x[0] += 1
+            xs.append(x)
+            ys.append(y)
+        data = pa.table({"variant": [0] * nc + [1] * nt, "x": np.concatenate(xs), "y": np.concatenate(ys)})
+        try:
+            res = tt.Experiment(m=tt.RatioOfMeans("x", "y", alternative=alt, equal_var=ev, use_t=ut, confidence_level=cl)
+                                ).analyze(data)["m"]
+        except Exception as ex:  # noqa: BLE001
+            chk.fail("Experiment.analyze raised on float numerator/denominator data",
+                     dict(cell=[alt, ev, ut], zero_numerator_mean=zero, error=repr(ex),
+                          control=[xs[0].tolist(), ys[0].tolist()], treatment=[xs[1].tolist(), ys[1].tolist()]))
+            continue
+        lin = []
+        for x, y in zip(xs, ys):
+            r = x.mean() / y.mean()
+            lin.append(r + (x - r * y) / y.mean())
+        lc, lt = lin
+        mc, mt, vc, vt = lc.mean(), lt.mean(), lc.var(ddof=1), lt.var(ddof=1)
+        if ev:
+            sp = ((nc - 1) * vc + (nt - 1) * vt) / (nc + nt - 2)
+            se, df = math.sqrt(sp * (1 / nc + 1 / nt)), nc + nt - 2
+        else:
+            se = math.sqrt(vc / nc + vt / nt)
+            df = (vc / nc + vt / nt) ** 2 / ((vc / nc) ** 2 / (nc - 1) + (vt / nt) ** 2 / (nt - 1))
+        dist = st.t(df) if ut else st.norm()
+        d = mt - mc
+        z = d / se
+        if alt == "greater":
+            exp = dict(pvalue=dist.sf(z), effect_size_ci_lower=d - se * dist.ppf(cl), effect_size_ci_upper=math.inf)
+        elif alt == "less":
+            exp = dict(pvalue=dist.cdf(z), effect_size_ci_lower=-math.inf, effect_size_ci_upper=d + se * dist.ppf(cl))
+        else:
+            h = se * dist.ppf((1 + cl) / 2)
+            exp = dict(pvalue=2 * dist.sf(abs(z)), effect_size_ci_lower=d - h, effect_size_ci_upper=d + h)
+        exp.update(statistic=z, control=xs[0].mean() / ys[0].mean(), treatment=xs[1].mean() / ys[1].mean(), effect_size=d)
+        if zero == "none":
+            exp.update(rel_effect_size=exp["treatment"] / exp["control"] - 1)
+        chk.case(("float-linearised", alt, ev, ut, zero, nc, nt))
+        chk.branch("float-linearised:zero-numerator-mean=" + zero)
+        for f, e in exp.items():
+            g = float(getattr(res, f))
+            if math.isinf(e) or math.isinf(g) or math.isnan(g):
+                ok = e == g
+            else:
+                ok = abs(g - e) <= 1e-7 * (abs(e) + abs(mc) + abs(mt) + se)
+            if not ok:
+                chk.fail(f"float end-to-end: field {f} differs from the two-sample test of the linearised observations",
+                         dict(cell=[alt, ev, ut], confidence_level=cl, zero_numerator_mean=zero, field=f, observed=g,
+                              expected=e, control=[xs[0].tolist(), ys[0].tolist()],
+                              treatment=[xs[1].tolist(), ys[1].tolist()]))
+                break
+
+
 def main():
     chk = Check(PROP)
     chk.trusted = common.BASE_TRUST + [
@@ -73,6 +153,7 @@ def main():
     if chk.tier == "thorough":
         run_cases(chk, build(chk, 96), family=2, with_gen=have_model, label="[family 2] ")
     equivalences(chk, 24 if chk.tier == "quick" else 240)
+    float_linearised(chk, 36 if chk.tier == "quick" else 360)
     chk.cov["rule"] = ("random rational numerator/denominator data (2..28 rows per variant, balanced and 1:many, "
                        "any correlation), all 12 option cells, random confidence levels; equivalences Mean / "
                        "RatioOfMeans(None) / RatioOfMeans(ones) with and without covariate")
@@ -81,6 +162,7 @@ def main():
     def extended():
         run_cases(chk, build(chk, 300), family=1, with_gen=False)
         run_cases(chk, build(chk, 60), family=2, with_gen=False, label="[family 2] ")
+        float_linearised(chk, 120)
 
     chk.finish(extended_search=extended)
 
